@@ -180,7 +180,8 @@ def run(chk):
         items.append((term, want))
         idx.append(n)
         sh = shown[n]
-        if mode == "S" and scope and sh is not None and sh.kind == "Q" and sh.finite() and tbl.exact_unit(sh.unit):
+        if mode == "S" and scope and sh is not None and sh.kind == "Q" and sh.finite() and tbl.exact_unit(sh.unit) \
+                and not qtylib.range_risk(tbl, t, 150.0):   # simplification multiplies further conversion factors
             tol2 = qtylib.abs_tol(tbl, t, sh.unit, REL)
             items.append(("r_evalsimp_text PX_env prelude_n_exact %s %s %s" % (
                 qtylib.coq_Q(tol2), qtylib.coq_Q(Fraction(sh.value)), qtylib.tree_coq(tbl, t)),
